@@ -336,9 +336,9 @@ func resolveAnchors(p *Prog) *Anchors {
 		case "W-EC2-FLEET":
 			a.AwsOneShot = a.uniq(a.AwsOneShot, s.Fn, "fleet strategy")
 		case "W-ASG-ATT":
-			a.AwsAttach = a.uniq(a.AwsAttach, s.Fn, "attach step")
+			a.AwsAttach = a.uniq(a.AwsAttach, a.liftThinWrapper(s), "attach step")
 		case "W-EC2-TERM":
-			a.AwsTerminateOrphans = a.uniq(a.AwsTerminateOrphans, s.Fn, "orphan terminator")
+			a.AwsTerminateOrphans = a.uniq(a.AwsTerminateOrphans, a.liftThinWrapper(s), "orphan terminator")
 		}
 	}
 	if sp := p.SSAPkg[pkgAWS]; sp != nil {
@@ -626,4 +626,41 @@ func (a *Anchors) dryModeMethod() *ssa.Function {
 		}
 	}
 	return nil
+}
+
+// thinWrapper: fn does nothing of interest around the write site it contains — the call is not in a
+// loop of fn, it is fn's only external write, and fn has exactly one (static) repo caller. Such a
+// function is what "extract method" leaves behind; the structural role (attach step, orphan
+// terminator, …) belongs to its caller.
+func (a *Anchors) thinWrapper(s Site) (*ssa.Function, bool) {
+	fn := s.Fn
+	if fn == nil || innermostLoop(fn, s.Call.Block()) != nil {
+		return nil, false
+	}
+	for _, w := range a.W {
+		if w.Fn == fn && w.Call != s.Call {
+			return nil, false
+		}
+	}
+	var caller *ssa.Function
+	for _, c := range a.p.callers[fn] {
+		if c == fn {
+			return nil, false
+		}
+		if caller != nil && caller != c {
+			return nil, false
+		}
+		caller = c
+	}
+	if caller == nil || len(callsTo(caller, fn)) == 0 {
+		return nil, false
+	}
+	return caller, true
+}
+
+func (a *Anchors) liftThinWrapper(s Site) *ssa.Function {
+	if c, ok := a.thinWrapper(s); ok {
+		return c
+	}
+	return s.Fn
 }
